@@ -24,7 +24,10 @@ variable {α : Type}
 
 /-! ## cxOnePoint -/
 
-/-- the combined multiset of genes is unchanged (no guard needed: true for every cut point) -/
+/-- the combined multiset of genes is unchanged.  Unguarded on purpose: the statement after the
+draw consists of slice operations only, and Python slices clamp exactly like `take`/`drop`, so
+no raised error is swallowed for any `cx` (the `ValueError` of `randint(1, size-1)` for
+`size < 2` happens before, that is what `cxOnePointOk` excludes in `onepoint_locus/lengths`). -/
 theorem onepoint_multiset [DecidableEq α] (ind1 ind2 : List α) (cx : Nat) :
     ((cxOnePoint ind1 ind2 cx).1 ++ (cxOnePoint ind1 ind2 cx).2).Perm (ind1 ++ ind2) := by
   simp only [cxOnePoint]
@@ -93,6 +96,8 @@ example : cxTwoPoint [1, 2, 3, 4] [5, 6, 7, 8, 9] 4 1 = ([1, 6, 7, 8], [5, 2, 3,
 
 /-! ## cxUniform -/
 
+/-- unguarded: the loop index runs over `range(min(len1, len2))`, so both item accesses exist for
+every decision list (a list of the wrong length is a tape that does not fit, not an error) -/
 theorem uniform_multiset [DecidableEq α] (ind1 ind2 : List α) (ds : List Bool) :
     ((cxUniform ind1 ind2 ds).1 ++ (cxUniform ind1 ind2 ds).2).Perm (ind1 ++ ind2) :=
   cxUniform_inv (fun p => (p.1 ++ p.2).Perm (ind1 ++ ind2)) ind1 ind2 ds (List.Perm.refl _)
@@ -159,6 +164,7 @@ example : cxUniformR [1, 2, 3] [4, 5] (1 : Nat) [0, 1] = ([4, 2, 3], [1, 5]) := 
 
 /-! ## cxMessyOnePoint -/
 
+/-- unguarded: slices clamp, nothing can raise after the draws -/
 theorem messy_multiset [DecidableEq α] (ind1 ind2 : List α) (c1 c2 : Nat) :
     ((cxMessyOnePoint ind1 ind2 c1 c2).1 ++ (cxMessyOnePoint ind1 ind2 c1 c2).2).Perm (ind1 ++ ind2) := by
   simp only [cxMessyOnePoint]
@@ -326,23 +332,70 @@ example : cxOrdered [0, 1, 2, 3, 4] [4, 3, 2, 1, 0] 3 1 = ([0, 3, 2, 1, 4], [4, 
 
 /-! ## mutShuffleIndexes -/
 
-/-- for every selection vector and every `randint` result the mutant is a permutation of the
-individual (no guard needed); in particular a permutation of `0..n-1` stays one -/
-theorem shuffle_perm [DecidableEq α] (individual : List α) (ds : List (Option Nat)) :
-    (mutShuffleIndexes individual ds).Perm individual := by
-  simp only [mutShuffleIndexes]
-  refine foldl_inv (fun l : List α => l.Perm individual) _ _ _ (List.Perm.refl _) ?_
-  intro l id _ hl
-  cases hd : id.2 with
-  | none => simpa [hd] using hl
-  | some s => simp only [hd]; exact (pySwap_perm l _ _).trans hl
+/-- whenever the call goes through (`some`), the mutant is a permutation of the individual and as
+long; in particular a permutation of `0..n-1` stays one.  `none` is the raising call: see
+`shuffle_raises`, `shuffle_total`. -/
+theorem shuffle_perm [DecidableEq α] (individual out : List α) (ds : List (Option Nat))
+    (h : mutShuffleIndexes individual ds = some out) : out.Perm individual ∧ out.length = individual.length := by
+  simp only [mutShuffleIndexes] at h
+  refine foldl_inv
+    (fun acc : Option (List α) => ∀ l, acc = some l → l.Perm individual ∧ l.length = individual.length)
+    (shuffleStep individual.length) ((List.range individual.length).zip ds) (some individual)
+    (by intro l hl; cases hl; exact ⟨List.Perm.refl _, rfl⟩) ?_ out h
+  intro acc id _ hacc l hl
+  cases acc with
+  | none => simp [shuffleStep] at hl
+  | some ind =>
+    obtain ⟨hp, hlen⟩ := hacc ind rfl
+    cases hd : id.2 with
+    | none => simp only [shuffleStep, hd, Option.some.injEq] at hl; subst hl; exact ⟨hp, hlen⟩
+    | some s =>
+      simp only [shuffleStep, hd] at hl
+      split at hl
+      · obtain ⟨q1, q2⟩ := pySwap?_perm ind l _ _ hl
+        exact ⟨q1.trans hp, by rw [q2, hlen]⟩
+      · cases hl
 
-theorem shuffle_perm_range (n : Nat) (individual : List Nat) (ds : List (Option Nat))
-    (h : individual.Perm (List.range n)) : (mutShuffleIndexes individual ds).Perm (List.range n) :=
-  (shuffle_perm individual ds).trans h
+theorem shuffle_perm_range (n : Nat) (individual out : List Nat) (ds : List (Option Nat))
+    (hp : individual.Perm (List.range n)) (h : mutShuffleIndexes individual ds = some out) :
+    out.Perm (List.range n) :=
+  (shuffle_perm individual out ds h).1.trans hp
+
+/-- under the guard (one `random()` per gene, every `randint` answer in `[0, size-2]`) the call
+goes through: the partner index `swap_indx` (after `>= i: += 1`) is an existing position -/
+theorem shuffle_total [DecidableEq α] (individual : List α) (ds : List (Option Nat)) (h : mutShuffleIndexesOk individual ds) :
+    (mutShuffleIndexes individual ds).isSome = true := by
+  obtain ⟨_, hds⟩ := h
+  simp only [mutShuffleIndexes]
+  have key := foldl_inv
+    (fun acc : Option (List α) => ∃ l, acc = some l ∧ l.length = individual.length)
+    (shuffleStep individual.length) ((List.range individual.length).zip ds) (some individual)
+    ⟨individual, rfl, rfl⟩
+    (by
+      intro acc id hid ⟨l, hl, hlen⟩
+      subst hl
+      have hi : id.1 < individual.length := by
+        have := (List.of_mem_zip hid).1
+        simpa using this
+      cases hd : id.2 with
+      | none => exact ⟨l, by simp [shuffleStep, hd], hlen⟩
+      | some s =>
+        have hs := hds id.2 (List.of_mem_zip hid).2 s hd
+        have hsome : (pySwap? l id.1 (if s ≥ id.1 then s + 1 else s)).isSome = true := by
+          rw [pySwap?_isSome, hlen]
+          exact ⟨hi, by split <;> omega⟩
+        obtain ⟨l', hl'⟩ := Option.isSome_iff_exists.1 hsome
+        exact ⟨l', by simp [shuffleStep, hd, hs, hl'], by rw [(pySwap?_perm l l' _ _ hl').2, hlen]⟩)
+  obtain ⟨l, hl, _⟩ := key
+  rw [hl]; rfl
+
+/-- the raising case made explicit: a selected gene in an individual of length `< 2`
+(`randint(0, size-2)` is a `ValueError`) makes the model answer `none`, it does not "swap nothing" -/
+theorem shuffle_raises (x : α) (s : Nat) : mutShuffleIndexes [x] [some s] = none := by
+  simp [mutShuffleIndexes, shuffleStep, List.range_succ]
 
 example : mutShuffleIndexesOk [0, 1, 2, 3] [some 2, none, some 0, none] := by decide
-example : mutShuffleIndexes [0, 1, 2, 3] [some 2, none, some 0, none] = [2, 1, 3, 0] := by decide
+example : mutShuffleIndexes [0, 1, 2, 3] [some 2, none, some 0, none] = some [2, 1, 3, 0] := by decide
 example : [2, 1, 0].Perm (List.range 3) := by decide
 
 /-- under the guard the partner index is a different, existing position (`swap_indx >= i: += 1`) -/
@@ -386,6 +439,8 @@ example : drawOpts (1 : Nat) [0, 1, 0] [7, 8] = [some 7, none, some 8] := by dec
 
 /-! ## mutInversion -/
 
+/-- unguarded: only slice operations, which clamp like `take`/`drop` (no error is swallowed);
+`mutInversionOk` restricts the draws to what `randrange(size)` returns, see `inversion_exact` -/
 theorem inversion_perm [DecidableEq α] (individual : List α) (i1 i2 : Nat) :
     (mutInversion individual i1 i2).Perm individual := by
   unfold mutInversion
@@ -551,6 +606,65 @@ theorem uniform_int_bounds (individual : List Int) (low up : Bound) (ds : List (
           rw [this]; exact hP k hk
       · cases h
 
+/-- the model REJECTS a `randint` answer outside the bounds zipped to its position (`randint`'s
+contract is an assumption of the model, not something `uniform_int_bounds` proves): so
+`uniform_int_bounds` is a statement about *alignment* — the draw made for gene `i` is checked
+against `low[i]`, `up[i]` and (see `uniform_int_exact`) written to gene `i` -/
+theorem uniform_int_rejects (individual : List Int) (low up : Bound) (ds : List (Option Int))
+    (k : Nat) (hk : k < individual.length) (v xl xu : Int) (hv : ds[k]? = some (some v))
+    (hl : boundAt low k = some xl) (hu : boundAt up k = some xu) (hout : ¬ (xl ≤ v ∧ v ≤ xu)) :
+    mutUniformInt individual low up ds = none := by
+  simp only [mutUniformInt]
+  cases hlo : low.toSeq individual.length with
+  | none => rfl
+  | some lo =>
+    cases hhi : up.toSeq individual.length with
+    | none => rfl
+    | some hi =>
+      simp only
+      split
+      · have g1 := toSeq_get low _ lo hlo k hk
+        have g2 := toSeq_get up _ hi hhi k hk
+        have hkl : k < ((List.range individual.length).zip (lo.zip hi)).length := by
+          simp only [List.length_zip, List.length_range]; omega
+        apply mutUniformIntLoop_reject _ ds individual k hkl v hv
+        simp only [List.getElem_zip]
+        have e1 : lo[k]'g1.1 = xl := by
+          have := g1.2; rw [hl, List.getElem?_eq_getElem g1.1] at this; exact Option.some.inj this
+        have e2 : hi[k]'g2.1 = xu := by
+          have := g2.2; rw [hu, List.getElem?_eq_getElem g2.1] at this; exact Option.some.inj this
+        rw [e1, e2]; exact hout
+      · rfl
+
+/-- exact form: gene `j` is the `randint` answer made for position `j` if it was selected, else unchanged -/
+theorem uniform_int_exact (individual : List Int) (low up : Bound) (ds : List (Option Int)) (out : List Int)
+    (h : mutUniformInt individual low up ds = some out) (j : Nat) (hj : j < individual.length) :
+    out[j]? = (match ds[j]? with | some (some v) => some v | _ => individual[j]?) := by
+  unfold mutUniformInt at h
+  cases hlo : low.toSeq individual.length with
+  | none => simp [hlo] at h
+  | some lo =>
+    cases hhi : up.toSeq individual.length with
+    | none => simp [hlo, hhi] at h
+    | some hi =>
+      simp only [hlo, hhi] at h
+      split at h
+      · have g1 := toSeq_get low _ lo hlo
+        have g2 := toSeq_get up _ hi hhi
+        have hn : individual.length ≤ (lo.zip hi).length := by
+          simp only [List.length_zip]
+          have := (g1 j hj).1; have := (g2 j hj).1
+          by_cases h0 : individual.length = 0
+          · omega
+          · have := (g1 (individual.length - 1) (by omega)).1
+            have := (g2 (individual.length - 1) (by omega)).1
+            omega
+        rw [List.range_eq_range'] at h
+        have := mutUniformIntLoop_exact individual.length 0 (lo.zip hi) ds individual out hn (by omega) h j
+        rw [this, if_pos (by omega), Nat.sub_zero]
+        rcases ds[j]? with _ | _ | _ <;> rfl
+      · cases h
+
 /-- scalar bounds `low ≤ up` -/
 theorem uniform_int_bounds_scalar (individual : List Int) (low up : Int) (ds : List (Option Int)) (out : List Int)
     (h : mutUniformInt individual (.scalar low) (.scalar up) ds = some out) (i : Nat) (hi : i < out.length) :
@@ -619,8 +733,17 @@ theorem uniform_int_total (individual : List Int) (low up : Bound) (ds : List (O
 example : mutUniformInt [7, 7, 7] (.scalar 0) (.seq [1, 3, 5, 9]) [some 1, none, some 4] = some [1, 7, 4] := by decide
 example : Bound.toSeq 3 (.scalar 0) = some [0, 0, 0] ∧ Bound.toSeq 3 (.seq [1, 3, 5, 9]) = some [1, 3, 5, 9] := by decide
 example : mutUniformInt [7, 7, 7] (.scalar 0) (.seq [1, 3]) [none, none, none] = none := by decide
+example : mutUniformInt [7, 7, 7] (.scalar 0) (.seq [1, 3, 5]) [none, some 4, none] = none := by decide
 
-/-! ## In place: the operators return the very objects they were given -/
+/-! ## In place: the model's convention
+
+The three statements below only record how the model lifts a pure operator to objects (the
+operator writes the one or two objects it was given and returns their ids): they hold for *every*
+`f`, so they are facts about `inPlace1/2/ES`, not about DEAP.  That the real operators return the
+very objects they were given, change them through item/slice assignment only and never rebind a
+name to a copy (`ind1 = ind1[:]`) or replace a `strategy` object is NOT proved here: it is
+checked on the real objects by the harness (`is`-identity of every returned object and of the
+strategy attributes, contents read back from the argument objects) on every explored case. -/
 
 /-- a crossover called on two different objects `o1`, `o2` returns `(o1, o2)`; afterwards these two
 objects hold the children, and no other object was written -/
